@@ -64,7 +64,8 @@ class C15(Prop):
                 "NV.C15.include_path_confined_config", "NV.C15.judge_lp_model",
                 "NV.C15.judge_cvp_model", "NV.C15.judge_inc_model", "NV.C15.judge_sn_model",
                 "NV.C15.model_satisfies_spec", "NV.C15.model_satisfies_spec_absent", "NV.C15.model_satisfies_spec_present",
-                "NV.C15.legalLoop_fuel_irrelevant", "NV.C15.ed_session_satisfies_spec", "NV.C15.ed_session_satisfies_spec_absent", "NV.C15.segOk_edStep",
+                "NV.C15.legalLoop_fuel_irrelevant", "NV.C15.load_model_satisfies_spec", "NV.C15.include_model_satisfies_spec",
+                "NV.C15.inherit_model_satisfies_spec", "NV.C15.ed_session_satisfies_spec", "NV.C15.ed_session_satisfies_spec_absent", "NV.C15.segOk_edStep",
                 "NV.C15.efun_segOk", "NV.C15.fold_ok", "NV.C15.check_valid_path_error_fails_closed",
                 "NV.C15.check_valid_path_absent_or_odd_approves", "NV.C15.mediation_propagates_errors", "NV.C15.cvp_call_table", "NV.C15.legal_path_literals",
                 "NV.C15.save_tmp_format",
@@ -101,7 +102,10 @@ class C15(Prop):
             "#include / inherit / load_object names) + EXHAUSTIVE batches of all strings over {a . / #} up to length 7 "
             "(quick) / 9 (thorough) through legal_path, check_valid_path (allow, echo), strip_name and the include "
             "normaliser (3 including files) + seeded random long paths and random efun calls; one batch case carries up "
-            "to 4096 strings; a case is non-trivial when its trace has >= 2 lines; distinct = distinct canonical trace")
+            "to 4096 strings; master policies: deny, allow, echo, fixed (legal / illegal / absolute / empty), raise, raiseon, "
+            "odd return types, read-only, write-only, per-path read-only, and a master without valid_read/valid_write; "
+            "editing sessions (ed + a/e/E/f/r/w/W/x/q/Q with and without names); every branch of the efun models is hit "
+            "(evidence histogram.branches); a case is non-trivial when its trace has >= 2 lines; distinct = distinct canonical trace")
     not_covered = ["symbolic links inside the mudlib (link() creates them; resolution is the kernel's)",
                    "the ed efun is not run (needs an interactive user); its fopen sites are covered by the inventory only",
                    "SaveBinaryDir / #pragma save_binary (binaries.c) is inventoried but not exercised",
@@ -339,26 +343,55 @@ class C15(Prop):
         return self.generate(rng, max(10, n // 3), "search")
 
     def histogram(self, cases, impl):
-        h = {"strings_legal": 0, "strings_illegal": 0, "cvp_returned": 0, "cvp_refused": 0, "include_lines": 0,
-             "efun_calls": 0, "master_calls": 0, "master_denials": 0, "fs_calls": 0, "fs_write_calls": 0}
+        h = {"strings_legal": 0, "strings_illegal": 0, "cvp_returned": 0, "cvp_refused": 0, "cvp_error": 0,
+             "include_lines": 0, "efun_calls": 0, "master_calls": 0, "master_denials": 0, "master_raises": 0,
+             "master_rewrites": 0, "master_odd": 0, "absent_master_cases": 0, "fs_calls": 0, "fs_write_calls": 0}
+        br = {}     # model branches: efun -> shape of the libc calls of one call segment -> count
+
+        def close(efun, shape):
+            if efun is not None:
+                d = br.setdefault(efun, {})
+                k = ",".join(shape) or "-"
+                d[k] = d.get(k, 0) + 1
         for c in cases:
+            cur, shape, approved = None, [], None
             for l in impl.get(c.id, []):
                 if l.startswith("lp "):
                     h["strings_legal" if l.endswith(" 1") else "strings_illegal"] += 1
                 elif l.startswith("cvp "):
-                    h["cvp_refused" if l.endswith("none") else "cvp_returned"] += 1
+                    h["cvp_error" if l.endswith("!err") else "cvp_refused" if l.endswith("none") else "cvp_returned"] += 1
                 elif l.startswith("inc "):
                     h["include_lines"] += 1
+                elif l == "master absent":
+                    h["absent_master_cases"] += 1
                 elif l.startswith("call "):
+                    close(cur, shape)
+                    t = l.split()
+                    cur = t[1] if t[1] != "ed" else "ed:" + t[3].strip("[]")
+                    shape = []
                     h["efun_calls"] += 1
                 elif l.startswith("valid_"):
                     h["master_calls"] += 1
-                    if l.endswith("-> 0"):
+                    v = l.rsplit("-> ", 1)[-1]
+                    if v == "0":
                         h["master_denials"] += 1
+                    elif v == "raise":
+                        h["master_raises"] += 1
+                    elif v.startswith("="):
+                        h["master_rewrites"] += 1
+                    elif v.startswith("odd"):
+                        h["master_odd"] += 1
+                    approved = l.split()[1]
                 elif l.startswith("fs "):
                     h["fs_calls"] += 1
-                    if " w [" in l:
+                    t = l.split()
+                    if t[2] == "w":
                         h["fs_write_calls"] += 1
+                    # derived = the touched path is not literally the path the master was last asked about
+                    der = "" if approved is None or t[3].strip("[]") == approved.strip("[]").lstrip("/") else "~"
+                    shape.append(t[1] + der)
+            close(cur, shape)
+        h["branches"] = {k: dict(sorted(v.items(), key=lambda kv: -kv[1])[:12]) for k, v in sorted(br.items())}
         return h
 
 
